@@ -721,10 +721,29 @@ def s_int(v=0, *a):
     if isinstance(v, SymBool):
         return v._i()
     if isinstance(v, SymReal):
-        raise EngineError("int(real) is not modelled")
+        # truncation toward zero of a real: fresh integer q with the defining inequalities
+        global _INTREAL
+        _INTREAL += 1
+        q = z3.Int(f"trunc{_INTREAL}")
+        ENG.assume_fast(z3.If(v.e >= 0, z3.And(z3.ToReal(q) <= v.e, v.e < z3.ToReal(q) + 1), z3.And(z3.ToReal(q) >= v.e, v.e > z3.ToReal(q) - 1)))
+        return mk(q)
     if isinstance(v, AtomStr):
         return v.value
     return builtins.int(v, *a)
+
+
+_INTREAL = 0
+
+
+def s_round(v, nd=None):
+    """round() of a symbolic real to the nearest integer (ties unconstrained between the two neighbours)"""
+    if isinstance(v, SymReal) and nd is None:
+        global _INTREAL
+        _INTREAL += 1
+        q = z3.Int(f"round{_INTREAL}")
+        ENG.assume_fast(z3.And(z3.ToReal(q) - v.e <= z3.RealVal("1/2"), v.e - z3.ToReal(q) <= z3.RealVal("1/2")))
+        return mk(q)
+    return builtins.round(v) if nd is None else builtins.round(v, nd)
 
 
 def s_bool(v=False):
@@ -1165,6 +1184,20 @@ class SymArray:
             shape = shape[0]
         c = self.cells_list()
         return SymArray(c, shape, name=self.name, dtype=self.dtype)
+
+    def _ew(self, o, f):
+        if isinstance(o, SymArray):
+            if o.shape != self.shape:
+                raise EngineError("element-wise arithmetic on different shapes is not modelled")
+            vals = [f(a, b) for a, b in zip(self.cells_list(), o.cells_list())]
+        else:
+            vals = [f(a, o) for a in self.cells_list()]
+        return SymArray(vals, self.shape, name=self.name + "'", dtype=None)
+
+    def __sub__(self, o): return self._ew(o, lambda a, b: a - b)
+    def __add__(self, o): return self._ew(o, lambda a, b: a + b)
+    def __mul__(self, o): return self._ew(o, lambda a, b: a * b)
+    def __truediv__(self, o): return self._ew(o, lambda a, b: a / b)
 
     def astype(self, dtype):
         """numpy astype: values that fit are kept, others wrap (over-approximated by an arbitrary value of the dtype)"""
